@@ -1099,6 +1099,222 @@ def _dumped_from_fields(ck, R1, cls, td, entries, options):
 
 
 # =====================================================================================================
+# R8: what an option does is decided by that option alone
+# =====================================================================================================
+# documented derivations (module documentation): the metadata path is the data path "if different from the data path" is not given
+DERIVED_FROM = {"metadata_path": {"path"}}
+
+
+def _is_config_object(e) -> bool:
+    """The configuration object itself: the `config` parameter (defaulted `config if config is not None else {}`, `config or {}`,
+    `dict(config)`) or the field it is kept in -- not something read out of it."""
+    seen = False
+    for x in ast.walk(e):
+        if isinstance(x, ast.Subscript) or (isinstance(x, ast.Call) and not (isinstance(x.func, ast.Name) and x.func.id == "dict")):
+            return False
+        if isinstance(x, ast.Name) and isinstance(x.ctx, ast.Load):
+            if x.id == "config":
+                seen = True
+            elif x.id not in ("self", "dict"):
+                return False
+        if isinstance(x, ast.Attribute):
+            if x.attr == "config" and A.norm(x.value) == "self":
+                seen = True
+            else:
+                return False
+    return seen
+
+
+def _option_key_read(e):
+    """(key, sub-expressions still to look at) when `e` reads / tests one key of the configuration object."""
+    if isinstance(e, ast.Call) and A.call_attr(e) in ("get", "pop", "setdefault") and e.args and _is_config_object(A.call_recv(e)):
+        k = A.const_str(e.args[0])
+        if k is not None:
+            return k, list(e.args[1:]) + [kw.value for kw in e.keywords]
+    if isinstance(e, ast.Subscript) and _is_config_object(e.value):
+        k = A.const_str(e.slice)
+        if k is not None:
+            return k, []
+    if isinstance(e, ast.Compare) and len(e.ops) == 1 and isinstance(e.ops[0], (ast.In, ast.NotIn)) and _is_config_object(e.comparators[0]):
+        k = A.const_str(e.left)
+        if k is not None:
+            return k, []
+    return None
+
+
+class _Influence:
+    """Everything that can make a difference to a value at a program point: the parameters, configuration keys and fields of self
+    its expression is computed from, and -- transitively, through every local on the way -- those the branch conditions are
+    computed from under which the contributing assignments are reached.  Conditions come from `FA.conditions` (branches that do
+    not matter to whether the assignment is reached are resolved away; literals every normal completion of the function passes
+    -- argument validation -- are left out: they do not tell one configuration from another)."""
+
+    def __init__(self, ck, fa: FA):
+        self.ck, self.fa = ck, fa
+        self.seen = set()
+        self.roots = {}  # ("param"|"key"|"field", name) -> a witness text
+        self._must = None
+        self.defs = {}
+        for n, ds in fa.df.gen.items():
+            for d in ds:
+                if d.kind != "param":
+                    self.defs.setdefault(d.name, []).append(d)
+
+    def must(self):
+        if self._must is None:
+            cs = self.fa.conditions(self.fa.cfg.exit)
+            self.ck.need(cs is not None, "%s: too many paths" % self.fa.qual)
+            cs = list(cs)
+            self._must = frozenset.intersection(*[frozenset(c) for c in cs]) if cs else frozenset()
+        return self._must
+
+    def reached(self, node_id):
+        """roots of the conditions under which CFG node `node_id` is reached"""
+        cs = self.fa.conditions(node_id)
+        self.ck.need(cs is not None, "%s: too many paths" % self.fa.qual)
+        for c in cs:
+            for lit in c:
+                if lit in self.must() or (lit[0], not lit[1]) in self.must():
+                    continue
+                try:
+                    t = ast.parse(lit[0], mode="eval").body
+                except SyntaxError:
+                    raise AnalysisError("%s: branch condition `%s` cannot be read back" % (self.fa.qual, lit[0][:60]))
+                self.walk(t, node_id, lit[0])
+
+    def value(self, expr, at):
+        try:
+            e = self.fa.expand(expr, at)
+        except AnalysisError:
+            e = expr
+        self.walk(e, at, A.short(expr, 50))
+
+    def definition(self, d):
+        if (d.node, d.name) in self.seen:
+            return
+        self.seen.add((d.node, d.name))
+        self.reached(d.node)
+        if d.value is not None:
+            self.value(d.value, d.node)
+
+    def walk(self, e, at, why):
+        kr = _option_key_read(e)
+        if kr is not None:
+            self.roots.setdefault(("key", kr[0]), why)
+            for x in kr[1]:
+                self.walk(x, at, why)
+            return
+        if isinstance(e, ast.Attribute) and isinstance(e.value, ast.Name) and e.value.id == "self":
+            if e.attr == "config":
+                return
+            ds = self.defs.get("self." + e.attr)
+            if ds:
+                for d in ds:
+                    self.definition(d)
+            else:
+                self.roots.setdefault(("field", e.attr), why)
+            return
+        if isinstance(e, ast.Name):
+            if not isinstance(e.ctx, ast.Load) or e.id == "self" or not self.fa.df.is_local(e.id):
+                return
+            if e.id in self.fa.df.params and e.id != "config":
+                self.roots.setdefault(("param", e.id), why)
+            for d in self.defs.get(e.id, ()):
+                self.definition(d)
+            return
+        for c in ast.iter_child_nodes(e):
+            self.walk(c, at, why)
+
+
+def _foreign(roots, allowed, options, holders):
+    """The roots that belong to ANOTHER documented option: its constructor argument, its configuration key, a field that holds it."""
+    out = []
+    for (kind, name), why in sorted(roots.items()):
+        if kind == "param":
+            k = ARG_TO_KEY.get(name, name)
+            if k in options and k not in allowed:
+                out.append((k, "argument `%s`" % name, why))
+        elif kind == "key":
+            if name not in allowed:
+                out.append((name, "configuration key %r" % name, why))
+        elif kind == "field":
+            ks = {k for k, fs in holders.items() if name in fs}
+            if ks and not (ks & allowed):
+                out.append((sorted(ks)[0], "field `self.%s`" % name, why))
+    return out
+
+
+def check_option_alone(ck, R):
+    """The claim ranges over the full matrix of option combinations: an option given in a configuration (or as an argument) has its
+    effect whatever the other options are.  Structurally: the field a backend keeps an option in -- and the value a constructor
+    hands on to its base constructor for it -- is computed from, and assigned under conditions on, that option's own argument and
+    configuration key only (and the options it is documented to default to); likewise the entry to_dict writes for it."""
+    n = 0
+    for (modname, clsname, kind) in BACKENDS:
+        mod = ck.repo.module(modname)
+        cls = mod.classes.get(clsname)
+        doc = _doc_options(mod) if cls is not None else []
+        if not doc:
+            continue
+        holders = _option_fields(ck, cls, doc)
+        inits = [c.methods["__init__"] for c in ck.repo.mro(cls) if "__init__" in c.methods]
+        for opt in doc:
+            allowed = {opt} | DERIVED_FROM.get(opt, set())
+            bad = None
+            for fi in inits:
+                fa = _FA(ck, fi)
+                # the field(s) holding the option
+                for f in sorted(holders.get(opt, ())):
+                    inf = _Influence(ck, fa)
+                    for d in inf.defs.get("self." + f, ()):
+                        one = _Influence(ck, fa)
+                        one.definition(d)
+                        n += 1
+                        fo = _foreign(one.roots, allowed, doc, holders)
+                        if fo and bad is None:
+                            bad = (fa, d.stmt if d.stmt is not None else None, d.node, "`self.%s`" % f, fo[0])
+                # what is handed on to the base constructor for it
+                for c in fa.calls("__init__"):
+                    if not (isinstance(A.call_recv(c), ast.Call) and A.call_attr(A.call_recv(c)) == "super") or not fa.nodes(c):
+                        continue
+                    for kw in c.keywords:
+                        if kw.arg is not None and ARG_TO_KEY.get(kw.arg, kw.arg) == opt:
+                            one = _Influence(ck, fa)
+                            one.value(kw.value, fa.nodes(c)[0])
+                            n += 1
+                            fo = _foreign(one.roots, allowed, doc, holders)
+                            if fo and bad is None:
+                                bad = (fa, c, fa.nodes(c)[0], "the `%s` handed to the base constructor" % kw.arg, fo[0])
+            ck.ob(R, "%s::option-alone::%s" % (cls.qual, opt), bad is None,
+                  "what option %r configures is decided by that option alone" % opt if bad is None else
+                  "%s: what option %r configures (%s) also depends on option %r (%s in `%s`): given together, one of the two options is not "
+                  "honoured as it is when given alone -- the backend differs from the one the equivalent constructor argument / configuration entry "
+                  "builds in the rest of the option matrix" % (bad[0].qual, opt, bad[3], bad[4][0], bad[4][1], bad[4][2][:60]),
+                  (bad[0].where(bad[1]) if bad[1] is not None else bad[0].where()) if bad is not None else A.loc(cls, cls.node))
+        # the dump: the entry of an option is written under conditions on the fields that hold that option
+        td = _FA(ck, cls.methods["to_dict"]) if "to_dict" in cls.methods else None
+        if td is None:
+            continue
+        worst = {}
+        for en in _dump_entries(td):
+            if en.key not in doc or en.stmt is None or not td.nodes(en.stmt):
+                continue
+            allowed = {en.key} | DERIVED_FROM.get(en.key, set())
+            one = _Influence(ck, td)
+            one.reached(td.nodes(en.stmt)[0])
+            n += 1
+            fo = _foreign(one.roots, allowed, doc, holders)
+            if fo or en.key not in worst:
+                worst[en.key] = (fo, en.stmt)
+        for key, (fo, st) in sorted(worst.items()):
+            ck.ob(R, "%s::dumped-alone::%s" % (cls.qual, key), not fo,
+                  "whether option %r is dumped is decided by that option alone" % key if not fo else
+                  "to_dict writes option %r only under a condition on option %r (%s in `%s`): with both set the dump loses it and the rebuilt "
+                  "environment differs" % (key, fo[0][0], fo[0][1], fo[0][2][:60]), td.where(st))
+    ck.need(n >= 6, "option independence: only %d option holders / dump entries recognised" % n)
+
+
+# =====================================================================================================
 # R2: base_dir
 # =====================================================================================================
 def check_base_dir_final_before_use(ck, R):
@@ -2380,6 +2596,9 @@ def check(ck):
     from .memo import check_new_memo_tables
     ck.run(check_template_parameters_verbatim, ck, "C18.R7")
     ck.run(check_new_memo_tables, ck, "C18.M1", ('configuration', 'storage', 'storage_filesystem', 'storage_memory'))
+    ck.rule("C18.R8", "an option has its effect in every combination with the other options: the field holding it, the value handed to the base "
+                      "constructor for it and its dump entry depend on that option's own argument / configuration key only", 4)
+    ck.run(check_option_alone, ck, "C18.R8")
     ck.rule("C18.R5", "constructors never modify the configuration object they are given", 4)
     ck.run(check_config_not_mutated, ck, "C18.R5")
     ck.run(check_base_dir_final_before_use, ck, "C18.R2")
